@@ -27,9 +27,9 @@ def build_demo(src, demo, out, workdir):
     flags = "-g -O1 -fsanitize=address,undefined -fno-omit-frame-pointer -w"
     txt = open(demo).read()
     extra = ""
-    for w in re.findall(r"-Wl,--wrap=\w+", txt):
-        if w not in extra:
-            extra += " " + w
+    for w in re.findall(r"--wrap=(\w+)", txt):
+        if ("--wrap=%s " % w) not in extra + " ":
+            extra += " -Wl,--wrap=%s" % w
     sh("bison -o %s/sgramm.c %s/sgramm.y" % (workdir, src))
     objs = []
     cxx = demo.endswith(".cpp") or demo.endswith(".cc")
